@@ -45,6 +45,13 @@ def norm(stmt: str) -> str:
     idx = set(re.findall(r"\[([a-z_][a-z0-9_]*)\]", s))
     if len(idx) == 1:
         s = re.sub(r"\[([a-z_][a-z0-9_]*)\]", "[#]", s)
+    # a numeric literal stored as the whole right-hand side, however it is spelled (`0`, `0.`, `0.0f`, `0.0e0`): its value
+    mlit = re.fullmatch(r"(.*[^=!<>]=)(\d+\.?\d*(?:[eE][-+]?\d+)?)[fFlL]?", s)
+    if mlit:
+        try:
+            s = mlit.group(1) + repr(float(mlit.group(2)))
+        except ValueError:
+            pass
     return s
 
 
